@@ -123,6 +123,31 @@ func spliceTyped(c M, ty string, e M) {
 			}
 			return x[0]
 		})
+	case "s24": // 24 bytes (three ints): not a power of two
+		spliceT(c, e, func(v int) [3]int { return [3]int{v, v, v} }, func(x [3]int) int {
+			if x[0] != x[1] || x[1] != x[2] {
+				return -999
+			}
+			return x[0]
+		})
+	case "b3": // three bytes
+		spliceT(c, e, func(v int) [3]byte { return [3]byte{byte(v), byte(v), byte(v)} }, func(x [3]byte) int {
+			if x[0] != x[1] || x[1] != x[2] {
+				return -999
+			}
+			return int(x[0])
+		})
+	case "b1200": // 1200 bytes
+		spliceT(c, e, func(v int) [150]int64 {
+			var a [150]int64
+			a[0], a[149] = int64(v), int64(v)
+			return a
+		}, func(x [150]int64) int {
+			if x[0] != x[149] {
+				return -999
+			}
+			return int(x[0])
+		})
 	case "struct":
 		type box struct {
 			a []int
